@@ -69,6 +69,24 @@ AUDITED_UNSAFE = {
 }
 
 
+STREAM_POLL = "<vector::subscriber::VectorSubscriberStream<T> as futures_core::Stream>::poll_next"
+
+
+def _rehome_stream_helper(F, crate, path):
+    """a private method of VectorSubscriberStream that (only) its Stream::poll_next calls is part of poll_next for the audit: the
+    obligation R20.4 is evaluated on poll_next with its private helpers inlined."""
+    if crate != IM or path == STREAM_POLL:
+        return path
+    g = F.fns.get(crate + "::" + path)
+    pn = F.fns.get(crate + "::" + STREAM_POLL)
+    if g is None or pn is None or not pn.built or g.vis in ("pub",) or not (g.raw.get("self_ty") or "").startswith("vector::subscriber::VectorSubscriberStream<"):
+        return path
+    callers = [h for h in F.find(crate=IM) if h.built and h is not g and any(F.local_callee(h, t) is g for blk, t in h.built.calls())]
+    if callers and all(root_fn(F, h) is pn or _rehome_stream_helper(F, crate, root_fn(F, h).path) == STREAM_POLL for h in callers):
+        return STREAM_POLL
+    return path
+
+
 def run(ctx):
     F = ctx.facts
     r20_1(ctx)
@@ -107,7 +125,7 @@ def r20_1(ctx):
         sp = u["span"]
         if not u["user"] or sp["file"].startswith("/") or sp.get("exp") and sp["file"].startswith("/"):
             continue
-        key = (u["crate"], u["kind"], u["in"])
+        key = (u["crate"], u["kind"], _rehome_stream_helper(F, u["crate"], u["in"]) if u["kind"] == "block" else u["in"])
         seen.setdefault(key, []).append(sp)
     n = 0
     for key, sps in sorted(seen.items()):
@@ -137,7 +155,7 @@ def r20_1(ctx):
             if sp.get("exp") or sp["file"].startswith("/"):
                 continue  # macro / desugaring generated (pin_project!, .await, vec!): dependency's soundness
             ctx.call_sites += 1
-            key = (f.crate, root_fn(F, f).path, (t["callee"] or "").split("::")[-1])
+            key = (f.crate, _rehome_stream_helper(F, f.crate, root_fn(F, f).path), (t["callee"] or "").split("::")[-1])
             calls.setdefault(key, []).append((f, blk, t))
     for key, sites in sorted(calls.items()):
         n += len(sites)
@@ -249,7 +267,7 @@ def r20_4(ctx):
     F = ctx.facts
     fs = [f for f in F.find(crate=IM, name="poll_next") if "VectorSubscriberStream<" in (f.raw.get("self_ty") or "") and f.raw.get("impl_trait")]
     for f in fs:
-        b = f.built
+        b = inl(F, f, tag="r20.4") or f.built   # private helpers of the stream (a `poll_yield_batch` split out of poll_next) are judged in place
         uu = b.calls(r"unreachable_unchecked$")
         if not uu:
             ctx.holds("R20.4", f, "unreachable_unchecked", f.loc(), "no unreachable_unchecked left")
